@@ -147,6 +147,26 @@ theorem setDir_flag_correct (g : Geo ℝ) (s : State ℝ) (newdir : Vec3 ℝ) (s
   unfold setDirFlips
   simp only [Num.ge, dot_rotateUpFrom, hle]
 
+/-- ★ the same with the normal's provenance and the COMPOSITION ORDER explicit: the normal is
+    the tracker's surface normal at the surface level's LOCAL position
+    (`normal(lsa(surface_level).pos, surf)`), carried to the global frame by the
+    daughter-to-parent rotations in the order `R₀ (R₁ (… R_{sl-1} n))` — deepest first — and the
+    flag flips exactly when the two global directions lie on different sides of it. -/
+theorem setDir_flag_correct_order (g : Geo ℝ) (s : State ℝ) (newdir : Vec3 ℝ) (sl : ℕ) :
+    localNormal g s sl = g.normal (s.lev sl).uid (s.lev sl).pos (s.surf.getD 0) ∧
+    setDirFlips g s newdir sl =
+      (decide (0 ≤ Vec3.dot ((List.range sl).foldr (fun j v => (levelTransform g s j).rotUp v)
+                  (localNormal g s sl)) newdir)
+        != decide (0 ≤ Vec3.dot ((List.range sl).foldr (fun j v => (levelTransform g s j).rotUp v)
+                  (localNormal g s sl)) (s.lev 0).dir)) := by
+  have hle : ∀ x : ℝ, Num.le (Num.ofNat 0) x = decide (0 ≤ x) := by
+    intro x
+    show decide (((0 : ℕ) : ℝ) ≤ x) = _
+    simp
+  refine ⟨rfl, ?_⟩
+  unfold setDirFlips
+  simp only [Num.ge, rotateUpFrom_eq_normalUp, normalUp, hle]
+
 /-- the loop as written before the repair (`range<int>(level)`) computes the same flag iff …
     here: whenever no level between `surface_level` and the current level carries a rotation
     (in particular when `surface_level = level`) -/
@@ -232,6 +252,142 @@ theorem setDir_allLevels_wrong :
       Transformation.rotUp, gemv, Mat3.row, Vec3.get, Num.ge, Vec3R.dot_real, hle]
     num_simp
     norm_num
+
+/-- three levels: level 0 → daughter rotated a quarter turn about z → daughter rotated a quarter
+    turn about x → a unit with the plane x = 0 (surface 0); the track sits on that plane at
+    level 2, global direction +y (= +x in the frame of level 2) -/
+noncomputable def orderGeo : Geo ℝ :=
+  { tolRel := 0, tolAbs := 0,
+    universes := #[.simple { surfaces := #[], conn := #[],
+                             volumes := #[⟨[], [ltrue, lnot], 2, none, ⟨0, 0, 0⟩, ⟨0, 0, 0⟩⟩,
+                                          ⟨[], [ltrue], 0, some 0, ⟨0, 0, 0⟩, ⟨0, 0, 0⟩⟩],
+                             background := none, inner := #[], leaves := #[⟨none, []⟩],
+                             infVols := [1] },
+                   .simple { surfaces := #[], conn := #[],
+                             volumes := #[⟨[], [ltrue, lnot], 2, none, ⟨0, 0, 0⟩, ⟨0, 0, 0⟩⟩,
+                                          ⟨[], [ltrue], 0, some 1, ⟨0, 0, 0⟩, ⟨0, 0, 0⟩⟩],
+                             background := none, inner := #[], leaves := #[⟨none, []⟩],
+                             infVols := [1] },
+                   .simple { surfaces := #[.planeAligned .x 0], conn := #[[0, 1]],
+                             volumes := #[⟨[0], [0], 0, none, ⟨0, 0, 0⟩, ⟨0, 0, 0⟩⟩,
+                                          ⟨[0], [0, lnot], 0, none, ⟨0, 0, 0⟩, ⟨0, 0, 0⟩⟩],
+                             background := none, inner := #[], leaves := #[⟨none, []⟩],
+                             infVols := [0, 1] }],
+    daughters := #[(1, 0), (2, 1)],
+    transforms := #[.transformation ⟨⟨⟨0, -1, 0⟩, ⟨1, 0, 0⟩, ⟨0, 0, 1⟩⟩, ⟨0, 0, 0⟩⟩,
+                    .transformation ⟨⟨⟨1, 0, 0⟩, ⟨0, 0, -1⟩, ⟨0, 1, 0⟩⟩, ⟨0, 0, 0⟩⟩],
+    surfOff := #[0, 0, 0, 1], volOff := #[0, 2, 4, 6] }
+
+noncomputable def orderState : State ℝ :=
+  { levels := #[⟨1, ⟨0, 0, 0⟩, ⟨0, 1, 0⟩, 0⟩, ⟨1, ⟨0, 0, 0⟩, ⟨1, 0, 0⟩, 1⟩,
+                ⟨1, ⟨0, 0, 0⟩, ⟨1, 0, 0⟩, 2⟩],
+    level := some 2, surfaceLevel := some 2, surf := some 0, sense := false, boundary := true,
+    nextLevel := some 2, nextStep := some 0, nextSurf := none, nextSense := false,
+    failed := false }
+
+theorem order_t0 : levelTransform orderGeo orderState 0
+    = .transformation ⟨⟨⟨0, -1, 0⟩, ⟨1, 0, 0⟩, ⟨0, 0, 1⟩⟩, ⟨0, 0, 0⟩⟩ := by
+  simp [levelTransform, State.lev, SimpleUnit.vol, orderState, orderGeo, Geo.daughter, Geo.univ,
+    Geo.daughterInfo]
+
+theorem order_t1 : levelTransform orderGeo orderState 1
+    = .transformation ⟨⟨⟨1, 0, 0⟩, ⟨0, 0, -1⟩, ⟨0, 1, 0⟩⟩, ⟨0, 0, 0⟩⟩ := by
+  simp [levelTransform, State.lev, SimpleUnit.vol, orderState, orderGeo, Geo.daughter, Geo.univ,
+    Geo.daughterInfo]
+
+theorem order_normal : localNormal orderGeo orderState 2 = ⟨1, 0, 0⟩ := by
+  simp [localNormal, State.lev, SimpleUnit.surf, orderState, orderGeo, Geo.normal, Geo.univ,
+    SimpleUnit.normal, Surface.calcNormal, Surface.gradient, Axis.toNat, Vec3.set]
+
+theorem order_old_dir : (orderState.lev 0).dir = ⟨0, 1, 0⟩ := by
+  simp [State.lev, orderState]
+
+/-- ★ the order of composition matters: two non-commuting rotations (z then x quarter turns)
+    above a surface of level 2; for the new direction (0, −3/5, 4/5) the flag computed with
+    `R₀ (R₁ n)` flips (global normal (0,1,0)), the one computed with the reversed product
+    `R₁ (R₀ n)` (global "normal" (0,0,1)) does not. -/
+theorem setDir_order_matters :
+    setDirFlips orderGeo orderState ⟨0, -3 / 5, 4 / 5⟩ 2 = true ∧
+    setDirFlipsAscending orderGeo orderState ⟨0, -3 / 5, 4 / 5⟩ 2 = false := by
+  have hle : ∀ x : ℝ, Num.le (Num.ofNat 0) x = decide (0 ≤ x) := by
+    intro x
+    show decide (((0 : ℕ) : ℝ) ≤ x) = _
+    simp
+  constructor
+  · rw [(setDir_flag_correct_order _ _ _ _).2, order_normal, order_old_dir]
+    simp only [List.range_succ, List.range_zero, List.nil_append, List.cons_append,
+      List.foldr_cons, List.foldr_nil, order_t0, order_t1, Transform.rotUp, Transformation.rotUp,
+      gemv, Mat3.row, Vec3.get, Vec3R.dot_real]
+    num_simp
+    norm_num
+  · unfold setDirFlipsAscending normalUpAscending
+    simp only [List.range_succ, List.range_zero, List.nil_append, List.cons_append,
+      List.foldl_cons, List.foldl_nil, order_t0, order_t1, order_normal, order_old_dir,
+      Transform.rotUp, Transformation.rotUp, gemv, Mat3.row, Vec3.get, Num.ge, Vec3R.dot_real, hle]
+    num_simp
+    norm_num
+
+/-- a unit sphere (surface 0) in a daughter translated by (10,0,0); the track sits on it at the
+    local point (0,1,0) = global (10,1,0), heading +y (outward) -/
+noncomputable def curvedGeo : Geo ℝ :=
+  { tolRel := 0, tolAbs := 0,
+    universes := #[.simple { surfaces := #[], conn := #[],
+                             volumes := #[⟨[], [ltrue, lnot], 2, none, ⟨0, 0, 0⟩, ⟨0, 0, 0⟩⟩,
+                                          ⟨[], [ltrue], 0, some 0, ⟨0, 0, 0⟩, ⟨0, 0, 0⟩⟩],
+                             background := none, inner := #[], leaves := #[⟨none, []⟩],
+                             infVols := [1] },
+                   .simple { surfaces := #[.sphereCentered 1], conn := #[[0, 1]],
+                             volumes := #[⟨[0], [0], 0, none, ⟨0, 0, 0⟩, ⟨0, 0, 0⟩⟩,
+                                          ⟨[0], [0, lnot], 0, none, ⟨0, 0, 0⟩, ⟨0, 0, 0⟩⟩],
+                             background := none, inner := #[], leaves := #[⟨none, []⟩],
+                             infVols := [0, 1] }],
+    daughters := #[(1, 0)],
+    transforms := #[.translation ⟨10, 0, 0⟩],
+    surfOff := #[0, 0, 1], volOff := #[0, 2, 4] }
+
+noncomputable def curvedState : State ℝ :=
+  { levels := #[⟨1, ⟨10, 1, 0⟩, ⟨0, 1, 0⟩, 0⟩, ⟨1, ⟨0, 1, 0⟩, ⟨0, 1, 0⟩, 1⟩],
+    level := some 1, surfaceLevel := some 1, surf := some 0, sense := false, boundary := true,
+    nextLevel := some 1, nextStep := some 0, nextSurf := none, nextSense := false,
+    failed := false }
+
+theorem curved_t0 : levelTransform curvedGeo curvedState 0 = .translation ⟨10, 0, 0⟩ := by
+  simp [levelTransform, State.lev, SimpleUnit.vol, curvedState, curvedGeo, Geo.daughter, Geo.univ,
+    Geo.daughterInfo]
+
+/-- ★ the position at which the normal is taken matters for curved surfaces: at the local point
+    (0,1,0) the sphere's normal is (0,1,0) and the direction (1, −1/2, 0) points back inside —
+    the flag must flip; taking the normal at the global point (10,1,0) gives (10,1,0)/√101, for
+    which the same direction still points outward — no flip. -/
+theorem setDir_localpos_matters :
+    setDirFlips curvedGeo curvedState ⟨1, -1 / 2, 0⟩ 1 = true ∧
+    setDirFlipsGlobalPos curvedGeo curvedState ⟨1, -1 / 2, 0⟩ 1 = false := by
+  have hle : ∀ x : ℝ, Num.le (Num.ofNat 0) x = decide (0 ≤ x) := by
+    intro x
+    show decide (((0 : ℕ) : ℝ) ≤ x) = _
+    simp
+  have hold : (curvedState.lev 0).dir = ⟨0, 1, 0⟩ := by simp [State.lev, curvedState]
+  constructor
+  · have hn : localNormal curvedGeo curvedState 1 = ⟨0, 1, 0⟩ := by
+      simp [localNormal, State.lev, SimpleUnit.surf, curvedState, curvedGeo, Geo.normal, Geo.univ,
+        SimpleUnit.normal, Surface.calcNormal, Surface.gradient, makeUnit, Vec3.norm]
+    rw [(setDir_flag_correct_order _ _ _ _).2, hn, hold]
+    simp only [List.range_succ, List.range_zero, List.nil_append, List.foldr_cons, List.foldr_nil,
+      curved_t0, Transform.rotUp, Vec3R.dot_real]
+    norm_num
+  · have hs : (0 : ℝ) < 1 / Real.sqrt 101 := by positivity
+    have hn : curvedGeo.normal (curvedState.lev 1).uid (curvedState.lev 0).pos
+        (curvedState.surf.getD 0)
+        = ⟨10 * (1 / Real.sqrt 101), 1 * (1 / Real.sqrt 101), 0 * (1 / Real.sqrt 101)⟩ := by
+      simp [State.lev, SimpleUnit.surf, curvedState, curvedGeo, Geo.normal, Geo.univ,
+        SimpleUnit.normal, Surface.calcNormal, Surface.gradient, makeUnit, Vec3.norm]
+      try num_simp
+      try norm_num
+    unfold setDirFlipsGlobalPos
+    simp only [hn, hold, rotateUpFrom, curved_t0, Transform.rotUp, Num.ge, Vec3R.dot_real, hle]
+    have hp : (0 : ℝ) < (Real.sqrt 101)⁻¹ := by positivity
+    simp
+    linarith
 
 /-! ### direction change on the surface just crossed (known finding) -/
 
